@@ -169,9 +169,9 @@ def sym_isinstance(obj, cls):
     """isinstance that lets the symbolic stand-ins pass for the builtin types they model"""
     from .seq import SStr
     from .real import SReal
-    from .seq import sym_int, sym_float
+    from .seq import sym_int, sym_float, sym_str
     classes = cls if isinstance(cls, tuple) else (cls,)
-    classes = tuple(int if c is sym_int else float if c is sym_float else c for c in classes)   # the module's int/float are rebound
+    classes = tuple(int if c is sym_int else float if c is sym_float else str if c is sym_str else c for c in classes)   # the module's int/float/str are rebound
     cls = classes
     for c in classes:
         if c is str and isinstance(obj, SStr):
